@@ -159,7 +159,10 @@ async fn scenario(args: &Args, sc: &Scenario, rep: &mut Report, idx: u64) {
         if sc.multi { "multi" } else { "current" },
         if sc.opener_is_client { "client" } else { "server" }
     );
-    let pair = match ends::pair(PairOpts { server_transport: Some(small_window_transport()), client_transport: Some(small_window_transport()), relay: false }).await {
+    // every third scenario runs on endpoints without any custom transport (library defaults)
+    let made = if idx % 3 == 0 { ends::pair_library_defaults().await } else { ends::pair(PairOpts { server_transport: Some(small_window_transport()), client_transport: Some(small_window_transport()), relay: false }).await };
+    let ctx = if idx % 3 == 0 { format!("{ctx} transport=library-defaults") } else { ctx };
+    let pair = match made {
         Ok(p) => p,
         Err(e) => {
             rep.inconclusive(format!("{ctx}: {e}"));
